@@ -365,19 +365,39 @@ func init() {
 		k := I(op, "askers")
 		results := make([]any, k)
 		ms := make([]any, k)
+		handle := substitute(S(op, "handle"), s.hosts, opid)
+		if parts := strings.SplitN(handle, "@", 2); handle != "" && len(parts) == 2 {
+			/* the URL a lookup of this handle requests */
+			u = &url.URL{Scheme: "https", Host: parts[1], Path: "/.well-known/webfinger", RawQuery: (url.Values{"resource": []string{"acct:" + parts[0] + "@" + parts[1]}}).Encode()}
+			if e, ok := op["expect"].(map[string]any); ok {
+				op["expect_lookup"] = substitute(fmt.Sprint(e["lookup"]), s.hosts, opid)
+			}
+		}
 		var wg sync.WaitGroup
 		for i := 0; i < k; i++ {
 			wg.Add(1)
 			go func(i int) {
 				defer wg.Done()
 				start := time.Now()
+				if handle != "" && i%2 == 1 {
+					/* every other asker is a webfinger lookup that requests the same URL (it
+					   tolerates other media types than a document fetch does) */
+					link, werr := client.ResolveWebfinger(handle)
+					ms[i] = time.Since(start).Milliseconds()
+					if werr != nil {
+						results[i] = map[string]any{"kind": "lookup", "err": true}
+					} else {
+						results[i] = map[string]any{"kind": "lookup", "ok": link}
+					}
+					return
+				}
 				doc, src, gerr := client.FetchURL(u)
 				ms[i] = time.Since(start).Milliseconds()
 				if gerr != nil {
-					results[i] = map[string]any{"err": true}
+					results[i] = map[string]any{"kind": "fetch", "err": true}
 					return
 				}
-				results[i] = map[string]any{"ok": map[string]any{"src": src.String(), "stamp": fmt.Sprint(doc["stamp"])}}
+				results[i] = map[string]any{"kind": "fetch", "ok": map[string]any{"src": src.String(), "stamp": fmt.Sprint(doc["stamp"])}}
 			}(i)
 		}
 		wg.Wait()
@@ -894,7 +914,9 @@ func genC04(r *rand.Rand, n int, emit func(Op)) {
 					/* bracketed hosts: url.URL.Hostname strips brackets and a numeric port, nothing else */
 					"[{H0}]", "[{H0}]\r\nX-Injected: 1", "[{H0}]\r\nX-Injected:1", "[{H0}\r\nX-Injected]", "[::1]\r\nX-Injected",
 					/* a name, an IPv6 literal, the default port */
-					"{H5}", "LOCALHOST:{P5}", "localhost.:{P5}", "{H6}", "{H7}", "{H7}:443", "{H5}\nX-Injected: 1", "{H6}\rX-Injected: 1", "{H5}%0d%0aX-Injected:%201", "{H7}\t"})
+					"{H5}", "LOCALHOST:{P5}", "localhost.:{P5}", "{H6}", "{H7}", "{H7}:443", "{H5}\nX-Injected: 1", "{H6}\rX-Injected: 1", "{H5}%0d%0aX-Injected:%201", "{H7}\t",
+					/* an IPv6 literal with a zone: the dialer takes an unknown zone name for zone 0 */
+					"[::1%x]:{P6}", "[::1%x\r\nX-Evil: 1]:{P6}", "[::1%25x\r\nX-Evil: 1]:{P6}", "[::1%lo\r\nGET /second HTTP/1.0\r\n\r\n]:{P6}"})
 			if r.Intn(10) == 0 {
 				handle = pick(r, []string{"nodomain", "@", "a@b@{H0}"})
 			}
@@ -979,6 +1001,14 @@ func genC05(r *rand.Rand, n int, emit func(Op)) {
 				target = fmt.Sprintf("https://{H%d}/{OP}/same/r%d", k%simHosts, k)
 			}
 			emit(Op{"op": "fetchsame", "routes": routes, "u": target, "askers": 4 + r.Intn(6), "hops": hops, "timeout_s": 1})
+			if r.Intn(2) == 0 {
+				/* document fetches and webfinger lookups of one URL at once: a lookup's answer
+				   (a JRD, which a document fetch does not tolerate) is the lookup's alone */
+				jrd := "HTTP/1.0 200 OK\r\nContent-Type: application/jrd+json\r\n\r\n{\"stamp\":\"jrd\",\"links\":[{\"rel\":\"self\",\"type\":\"application/activity+json\",\"href\":\"https://{H1}/{OP}/actor\"}]}"
+				wf := []any{map[string]any{"h": 0, "path": "/.well-known/webfinger?*", "resp": jrd, "fault": pick(r, []string{"slowok:40:20", "slowok:10:30", ""})}}
+				emit(Op{"op": "fetchsame", "routes": wf, "u": "https://{H0}/.well-known/webfinger", "handle": "alice@{H0}", "askers": 4 + r.Intn(6), "hops": 0, "timeout_s": 1,
+					"expect": map[string]any{"fetch": "err", "lookup": "https://{H1}/{OP}/actor"}})
+			}
 			continue
 		case 1:
 			genC05Parallel(r, emit)
